@@ -33,8 +33,8 @@ def sysname(line):
 
 
 def strace_leg(ctx):
-    t0 = time.time()
     binp = ctx["build"]({"name": "native", "build": "native"})
+    t0 = time.time()  # the budget covers the workload, not a (re)build of the binary
     rnd = random.Random(ctx["seed"])
     tier = ctx["tier"]
     budget = ctx["budget"] or (40 if tier == "quick" else 600)
@@ -46,6 +46,12 @@ def strace_leg(ctx):
     c = res["counters"]
     seen = set()
 
+    def over_budget():
+        # the budget ends the workload only once the non-vacuity floor is met (a loaded machine
+        # must not turn the leg into 'observed nothing'); hard stop at six times the budget
+        el = time.time() - t0
+        return el > budget and (c.get("kills_injected", 0) >= 16 or el > 6 * budget)
+
     def viol(sig, detail, replay):
         res["violations_total"] += 1
         if len(res["violations"]) < 20:
@@ -53,7 +59,7 @@ def strace_leg(ctx):
 
     for fmt in ("file", "quantising"):
         for trial in range(trials):
-            if time.time() - t0 > budget:
+            if over_budget():
                 c["budget_stops"] = c.get("budget_stops", 0) + 1
                 break
             sa, sb = rnd.randrange(1 << 40), rnd.randrange(1 << 40)
@@ -111,7 +117,7 @@ def strace_leg(ctx):
                 before = sum(1 for l in lines[:b + 1] if sysname(l) in names)
                 inside = sum(1 for l in reg if sysname(l) in names)
                 for k in range(before + 1, before + inside + 1):
-                    if time.time() - t0 > budget:
+                    if over_budget():
                         break
                     d2 = os.path.join(ctx["scratch"], "c07k")
                     shutil.rmtree(d2, ignore_errors=True)
